@@ -5,7 +5,7 @@ import os
 import subprocess
 import time
 
-from pyvc.api import harness, len_
+from pyvc.api import harness, len_, eq, bnot
 
 CSP = "tlexport.cipher_suite_parser"
 HERE = os.path.dirname(os.path.dirname(os.path.abspath(__file__)))
@@ -54,7 +54,7 @@ def h_unknown(c):
     sid = c.bytes("suite_id", max_len=8)
     table = c.const_of(CSP + ".cipher_suites")
     for k in table:
-        c.assume(sid != k) if len(k) != 2 else c.assume((len_(sid) != 2) | (sid[0] != k[0]) | (sid[1] != k[1]))
+        c.assume(bnot(eq(sid, k)))
     out = c.call(CSP + ".split_cipher_suite", sid)
     c.ensure("no_raise", out.exc is None, kind="raises")
     if out.exc is None:
